@@ -417,12 +417,10 @@ func (g *Gen) avoidTrailingP(n *Node) {
 	}
 }
 
-// lc: N03 — a script/style type that is not lower-case is dropped as default but its content is not minified
+// lc: N03 — a script/style type that is not lower-case was dropped as default while its content was not minified
+// (repaired in /repo: the media type is lower-cased before the lookup); the shape is generated unconditionally now
 func (g *Gen) lc(s string) string {
-	if g.Known {
-		return s
-	}
-	return strings.ToLower(s)
+	return s
 }
 
 func (g *Gen) rawElem(tag, content string) *Node {
